@@ -1,6 +1,7 @@
 package props
 
 import (
+	"os"
 	"go/types"
 	"fmt"
 	"sort"
@@ -86,7 +87,11 @@ func segmentOrder(c *core.Ctx, r *core.Rule) {
 				}
 				if sl, ok := a.(*ssa.Slice); ok && sl.High != nil {
 					if k, ok := core.ConstFold(sl.High); ok {
-						if k == 4 {
+						lo := int64(0)
+						if sl.Low != nil {
+							lo, _ = core.ConstFold(sl.Low)
+						}
+						if k-lo == 4 {
 							out["TRAILER"] = append(out["TRAILER"], ins)
 						} else {
 							out["HEADER"] = append(out["HEADER"], ins)
@@ -192,6 +197,79 @@ func segmentOrder(c *core.Ctx, r *core.Rule) {
 		}
 	}
 
+	// scratch freshness: what the writer sends from its scratch buffer was encoded into those bytes after
+	// the last call that may have reused the buffer
+	for wi, w := range append(append([]ssa.Instruction{}, wt["HEADER"]...), wt["TRAILER"]...) {
+		cc := core.CallCommonOf(w)
+		if cc == nil || w.Parent() != wfn {
+			continue
+		}
+		args := cc.Args
+		sl, ok := args[len(args)-1].(*ssa.Slice)
+		if !ok {
+			continue
+		}
+		lo, hi := int64(0), int64(0)
+		if sl.Low != nil {
+			lo, _ = core.ConstFold(sl.Low)
+		}
+		hi, _ = core.ConstFold(sl.High)
+		// every byte [lo,hi) is put after the last receiver-method call before the write
+		covered := map[int64]bool{}
+		for _, b := range wfn.Blocks {
+			for _, ins := range b.Instrs {
+				call, ok := ins.(*ssa.Call)
+				if !ok {
+					continue
+				}
+				_, width, put, okB := binaryOrder(call)
+				if !okB || !put || len(call.Call.Args) != 3 {
+					continue
+				}
+				// destination: w.buf[a:...] with the same scratch array
+				dsl, okD := call.Call.Args[1].(*ssa.Slice)
+				if !okD || !addrEq(dsl.X, sl.X, 0) || !core.Dominates(ins, w) {
+					continue
+				}
+				off := int64(0)
+				if dsl.Low != nil {
+					var okL bool
+					off, okL = core.ConstFold(dsl.Low)
+					if !okL {
+						continue
+					}
+				}
+				// no call of a method of the writer between the put and the write
+				clobber := core.ForwardSearch(wfn, ins, func(i ssa.Instruction) bool {
+					if i == w {
+						return false
+					}
+					c2 := core.CallCommonOf(i)
+					if c2 == nil || c2.StaticCallee() == nil || c2.StaticCallee().Signature.Recv() == nil || len(c2.Args) == 0 {
+						return false
+					}
+					return c2.Args[0] == ssa.Value(wfn.Params[0])
+				}, func(i ssa.Instruction) bool { return i == w })
+				if clobber != nil {
+					if os.Getenv("GPV_DEBUG") != "" {
+						fmt.Println("DEBUG clobber", p.InstrPos(ins), "->", p.InstrPos(clobber), clobber)
+					}
+					continue
+				}
+				for k := int64(0); k < width; k++ {
+					covered[off+k] = true
+				}
+			}
+		}
+		fresh := true
+		for k := lo; k < hi; k++ {
+			if !covered[k] {
+				fresh = false
+			}
+		}
+		r.Check(fresh, fmt.Sprintf("pcapng/packet-block/scratch-fresh#%d", wi+1), p.InstrPos(w), "the scratch bytes written were encoded after the last call that may reuse the scratch buffer", "bytes of the writer's scratch buffer are sent that were encoded before a later method call of the writer (which encodes option values into the same scratch bytes): with such options the block's trailing length (or header) carries option bytes, and readers that check it stop there")
+	}
+
 	var pairs []string
 	for i := 0; i < len(segs); i++ {
 		for j := i + 1; j < len(segs); j++ {
@@ -205,5 +283,113 @@ func segmentOrder(c *core.Ctx, r *core.Rule) {
 		ro := before(rfn, rt[ab[0]], rt[ab[1]])
 		key := "pcapng/packet-block/order:" + pr
 		r.Check(wo == ro, key, p.InstrPos(wt[ab[1]][0]), "writer and reader agree: "+ab[0]+" "+wo+" "+ab[1], fmt.Sprintf("the writer emits %s %s %s but the reader consumes %s %s %s: whenever both segments are present (options with data whose length is not a multiple of 4) the reader takes the one for the other and the following packets are lost", ab[0], wo, ab[1], ab[0], ro, ab[1]))
+	}
+}
+
+// readerValueRules: (R14.8) unsigned file fields are not sign-extended; (R14.9) the copying read
+// calls hand out no memory owned by the reader.
+func readerValueRules(c *core.Ctx, r8, r9 *core.Rule) {
+	p := c.P
+	n8, n9 := 0, 0
+	for _, fn := range pkgFunctions(p, "pcapgo") {
+		pos := p.Pos(fn.Pos())
+		if strings.HasSuffix(pos, "_test.go") || !(strings.Contains(pos, "read") || strings.Contains(pos, "snoop")) {
+			continue
+		}
+		// ---- R14.8
+		core.Instrs(fn, func(ins ssa.Instruction) {
+			cv, ok := ins.(*ssa.Convert)
+			if !ok {
+				return
+			}
+			from, ok1 := cv.X.Type().Underlying().(*types.Basic)
+			to, ok2 := cv.Type().Underlying().(*types.Basic)
+			if !ok1 || !ok2 {
+				return
+			}
+			signedSame := (from.Kind() == types.Uint32 && to.Kind() == types.Int32) || (from.Kind() == types.Uint16 && to.Kind() == types.Int16) || (from.Kind() == types.Uint64 && to.Kind() == types.Int64 && false)
+			if !signedSame {
+				return
+			}
+			// operand read from the file
+			call, isCall := core.StripConv(cv.X).(*ssa.Call)
+			if !isCall || !isReaderUint(call) {
+				return
+			}
+			widened := false
+			for _, ref := range *cv.Referrers() {
+				if c2, ok := ref.(*ssa.Convert); ok {
+					if t2, ok := c2.Type().Underlying().(*types.Basic); ok && (t2.Kind() == types.Int64 || t2.Kind() == types.Int) {
+						widened = true
+					}
+				}
+			}
+			n8++
+			r8.Check(!widened, fmt.Sprintf("%s/sign-extension#%d", core.FnKey(fn), n8), p.InstrPos(ins), "not widened", "an unsigned field read from the file is converted to the signed type of the same width and then widened: values with the top bit set come back negative although the writer stores them unsigned (timestamps from 2038 on read back as 1901-1969)")
+		})
+		// ---- R14.9
+		if !strings.HasPrefix(fn.Name(), "ReadPacketData") || fn.Signature.Recv() == nil {
+			continue
+		}
+		recv := fn.Params[0]
+		ownedBy := func(v ssa.Value) bool {
+			for i := 0; i < 8; i++ {
+				switch x := v.(type) {
+				case *ssa.Slice:
+					v = x.X
+					continue
+				case *ssa.UnOp:
+					v = x.X
+					continue
+				case *ssa.FieldAddr:
+					if x.X == ssa.Value(recv) {
+						return true
+					}
+					v = x.X
+					continue
+				case *ssa.IndexAddr:
+					v = x.X
+					continue
+				}
+				break
+			}
+			return false
+		}
+		core.Instrs(fn, func(ins ssa.Instruction) {
+			sl, ok := ins.(*ssa.Slice)
+			if !ok || !ownedBy(sl.X) {
+				return
+			}
+			// does the slice escape into the results: returned, or stored into a local struct / named result
+			esc := false
+			for _, ref := range *sl.Referrers() {
+				switch x := ref.(type) {
+				case *ssa.Return:
+					esc = true
+				case *ssa.Store:
+					if x.Val == ssa.Value(sl) {
+						if pth, base := core.FieldPath(x.Addr); pth != "" {
+							if _, isAlloc := base.(*ssa.Alloc); isAlloc {
+								esc = true
+							}
+						}
+						if _, isAlloc := x.Addr.(*ssa.Alloc); isAlloc {
+							esc = true
+						}
+					}
+				}
+			}
+			if !esc {
+				return
+			}
+			n9++
+			r9.Violate(fmt.Sprintf("%s/returns-reader-memory#%d", core.FnKey(fn), n9), p.InstrPos(ins), "the copying read call hands out a slice of memory the reader keeps and overwrites on the next read: packets (capture info) kept by the caller change when later packets are read", nil)
+		})
+	}
+	if n8 == 0 {
+		r8.OK("pcapgo/no-sign-extension", "", "no unsigned file field is converted to the same-width signed type")
+	}
+	if n9 == 0 {
+		r9.OK("pcapgo/copying-reads", "", "the copying read calls return no slice of reader-owned memory")
 	}
 }
